@@ -215,3 +215,48 @@ def decode_table(tab, num_reserved, base):
     nr = float(num_reserved)
     cp = np.maximum(t - nr, 0.0)
     return np.where(t <= nr, t, (np.power(base, cp) - 1.0) / (base - 1.0) + nr)
+
+
+# ---------------------------------------------------------------------------------------------
+# harness-side rebinding of module globals (pure delay in __del__ of shared-memory sketches)
+# ---------------------------------------------------------------------------------------------
+class _NoGC:
+    @staticmethod
+    def collect(*a, **k):
+        return 0
+
+
+def fast_del(enable=True):
+    """Rebind the modules' `sleep` (and optionally `gc`) names so that dropping a shared-memory sketch does
+    not cost 0.25 s + a full gc.collect().  Test-side monkeypatch of module globals, no source hook."""
+    import gc as real_gc
+    import time as real_time
+
+    s = sk()
+    for mod in (s.countmin, s.heavyhitters, s.hyperloglog, s.helpers):
+        if enable:
+            mod.sleep = lambda *_a, **_k: None
+            mod.gc = _NoGC
+        else:
+            mod.sleep = real_time.sleep
+            mod.gc = real_gc
+
+
+def save_load(sketch, kind, shared_memory=False, via_module=False):
+    """save() to a temp file and load it back through the class loader (or countmin.load)."""
+    s = sk()
+    path = tmp_path(".npz")
+    try:
+        sketch.save(path)
+        if kind == "hh":
+            return s.HeavyHitters.load(path, shared_memory)
+        if kind == "hll":
+            return s.HyperLogLog.load(path, shared_memory)
+        if via_module:
+            return s.countmin.load(path, shared_memory)
+        return {"linear": s.CountMinLinear, "log16": s.CountMinLog16, "log8": s.CountMinLog8}[kind].load(path, shared_memory)
+    finally:
+        try:
+            os.unlink(path)
+        except OSError:
+            pass
